@@ -229,13 +229,28 @@ def shard_decode(spec):
                     exp = ("reject",) if e[0] == "reject" else ("datetime", D, e[1], e[2])
                     judge_decode(acc, dialect, dtxt + "T" + ttxt + ztxt, exp, "datetime")
     elif kind == "leap":
+        # every dialect inside one process, in both orders (dialect names the first one): a value
+        # remembered by one decoder class must not be handed out by another
         if part == 0:
+            order = list(impl.DIALECTS)
+            if dialect in ("ODL", "ISIS"):
+                order.reverse()
             for txt in ("23:59:60", "23:59:60Z", "23:59:60.5", "00:00:60", "2016-12-31T23:59:60", "2016-366T23:59:60Z",
-                        "2016-12-31T23:59:60.123Z", "0001-01-01T00:00:60"):
-                if dialect == "PVL":
-                    judge_decode(acc, dialect, txt, ("leaptext",), "leap-second")
-                elif dialect in ("ODL", "PDS3"):
-                    judge_decode(acc, dialect, txt, ("reject",), "leap-second")
+                        "2016-12-31T23:59:60.123Z", "0001-01-01T00:00:60", "12:00+01", "12:00:00.1234", "12:00"):
+                leap = ":60" in txt
+                for d in order:
+                    if leap and d == "PVL":
+                        judge_decode(acc, d, txt, ("leaptext",), "leap-second")
+                    elif leap and d in ("ODL", "PDS3"):
+                        judge_decode(acc, d, txt, ("reject",), "leap-second")
+                    elif not leap and d == "PDS3" and txt != "12:00":
+                        judge_decode(acc, d, txt, ("reject",), "time")
+                    elif not leap and d == "ODL" and txt == "12:00":
+                        judge_decode(acc, d, txt, ("time", (12, 0, 0, 0), None), "time")
+                    else:
+                        decode_both(d, txt)          # only to put the text through this dialect's classes
+                for v in acc.violations:
+                    v["case"].setdefault("order", order)
     acc.sample({"kind": kind, "dialect": dialect}, cap=1)
     return acc
 
@@ -416,6 +431,11 @@ def run(ctx):
 
 def replay(case):
     acc = Acc()
+    if case.get("order"):
+        for d in case["order"]:
+            if d == case["dialect"]:
+                break
+            decode_both(d, case["text"])
     if case["dir"] == "encode":
         judge_encode(acc, case["encoder"], vjson.dec(case["value"]))
         return acc.violations
